@@ -30,6 +30,16 @@ def mask(w):
   return (1 << w) - 1
 
 
+def list_suffixes(lst):
+  """index suffixes of a list signal: lst = n (1-D) or [n, m, ..] (multi-dimensional)"""
+  if not lst: return [""]
+  dims = [lst] if isinstance(lst, int) else list(lst)
+  out = [""]
+  for d in dims:
+    out = [p + f"[{i}]" for p in out for i in range(d)]
+  return out
+
+
 def may_be_int(e):
   """True when the PYTHON simulation of e can produce a plain int (a literal, a free variable, or a conditional expression
   with such a branch): under ~, or next to another such operand, python computes on unbounded ints instead of Bits"""
@@ -318,7 +328,11 @@ def emit(design, connect_order=None, connect_style=None, block_order=None):
     L += [f"class {cn}(Component):", "  def construct(s):"]
     for sg in c["signals"]:
       if sg["list"]:
-        L.append(f"    s.{sg['name']} = [{sg['kind']}({type_text(sg['type'])}) for _ in range({sg['list']})]")
+        dims = [sg["list"]] if isinstance(sg["list"], int) else list(sg["list"])
+        txt = f"{sg['kind']}({type_text(sg['type'])})"
+        for n_ in reversed(dims):
+          txt = f"[{txt} for _ in range({n_})]"
+        L.append(f"    s.{sg['name']} = {txt}")
       else:
         L.append(f"    s.{sg['name']} = {sg['kind']}({type_text(sg['type'])})")
     for iname, ccn in c["children"]:
@@ -424,8 +438,8 @@ class Ref:
     for sg in c["signals"]:
       w = twidth(self.d, sg["type"])
       if sg["list"]:
-        for i in range(sg["list"]):
-          self.sig[f"{path}.{sg['name']}[{i}]"] = (w, sg["type"], sg["kind"], path)
+        for sfx in list_suffixes(sg["list"]):
+          self.sig[f"{path}.{sg['name']}{sfx}"] = (w, sg["type"], sg["kind"], path)
       else:
         self.sig[f"{path}.{sg['name']}"] = (w, sg["type"], sg["kind"], path)
     for iname, ccn in c["children"]:
@@ -769,6 +783,8 @@ class Gen:
       if kind == "Wire" and not isinstance(t, int) and not k.get("struct_wires", True):
         t = twidth(d, t)
       lst = rng.randrange(2, 4) if (rng.random() < k["p_list"] and isinstance(t, int)) else None
+      if lst and k.get("p_list2d") and rng.random() < k["p_list2d"]:
+        lst = [rng.randrange(1, 4), rng.randrange(2, 4)] if rng.random() < 0.8 else [2, rng.randrange(1, 3), 2]      # non-square / 3-D
       sg = {"name": f"{prefix}{nid[0]}", "kind": kind, "type": t, "list": lst}; nid[0] += 1
       cls["signals"].append(sg)
       return sg
@@ -785,7 +801,7 @@ class Gen:
 
     def roots(sg):
       if sg["list"]:
-        return [(f"{sg['name']}[{i}]", sg["type"]) for i in range(sg["list"])]
+        return [(f"{sg['name']}{sfx}", sg["type"]) for sfx in list_suffixes(sg["list"])]
       return [(sg["name"], sg["type"])]
 
     # entities in rank order
@@ -812,7 +828,7 @@ class Gen:
         if sg["name"] in reg_names:
           ff_targets.append((self.root_ref(sg["name"], sg["type"]), sg["type"]))
           continue
-        if sg["list"] and isinstance(sg["type"], int) and rng.random() < k.get("p_for", 0):
+        if sg["list"] and isinstance(sg["list"], int) and isinstance(sg["type"], int) and rng.random() < k.get("p_for", 0):
           comb_targets.append((rank, {"forblock": self.for_block(sg, avail + regs)}, []))
           avail = avail + roots(sg)
           continue
@@ -938,7 +954,7 @@ class Gen:
     # element-wise source: another list of the same length (element width wl), or i-th w-bit slice of a wide signal
     lists = {}
     for path, t in srcs:
-      if "[" in path and isinstance(t, int):
+      if path.count("[") == 1 and path.endswith("]") and isinstance(t, int):      # elements of a 1-D list only
         base = path.split("[")[0]
         lists.setdefault((base, t), 0); lists[(base, t)] += 1
     cands = []
@@ -1067,7 +1083,7 @@ def top_inputs(design):
     if sg["kind"] == "InPort":
       w = twidth(design, sg["type"])
       if sg["list"]:
-        out += [(f"s.{sg['name']}[{i}]", w) for i in range(sg["list"])]
+        out += [(f"s.{sg['name']}{sfx}", w) for sfx in list_suffixes(sg["list"])]
       else:
         out.append((f"s.{sg['name']}", w))
   return out
